@@ -24,9 +24,22 @@
 (* content (a reader that consumes one fails), and an item is pushed back  *)
 (* only a bounded number of times before something is received.            *)
 (*                                                                         *)
-(* DecMode  = "buffered"   the decoder channel has room for all runes, the *)
-(*                         decoder can always finish (the design)          *)
-(*          = "unbuffered" as read in parser.go:1392 (negative config)     *)
+(* A quoted string is a sequence of runes, each written plainly ("p", one   *)
+(* byte), as an escape sequence ("e": \n \r \t \" \x, two bytes, one rune) *)
+(* or as an escaped backslash ("b": two backslash bytes, one rune).  The   *)
+(* decoder SENDS ONE RUNE PER ELEMENT, whatever its length in bytes.  Its  *)
+(* channel has capacity Cap(token); a send blocks while the buffer is full.*)
+(* The parser leaves the range loop only from inside its body, i.e. after  *)
+(* it has received at least one rune, so the goroutine can always finish   *)
+(*   IFF  Cap(token) >= (runes sent) - 1   for every string token          *)
+(* (BufferSuffices is the sufficient form Cap >= runes that the design     *)
+(* uses; TLC shows with the negative configurations that less leaks).      *)
+(* DecMode  = "buffered"   Cap = bytes of the token incl. quotes (the      *)
+(*                         design: make(chan rune, len(s)))                *)
+(*          = "exact"      Cap = runes sent                                *)
+(*          = "unbuffered" Cap = 0, as read in parser.go:1392 (negative)   *)
+(*          = "tight"      Cap = bytes - 2 - number of backslash bytes: one *)
+(*                         too small per escaped backslash (negative)      *)
 (* LineMode = "tracked"    error items carry the lexer's line and a        *)
 (*                         receive on the closed channel reports the last  *)
 (*                         line seen (the design)                          *)
@@ -44,6 +57,7 @@ EXTENDS Integers, Sequences, FiniteSets, TLC, Json, DslContract
 CONSTANTS MaxTok,    \* token lists of length 0..MaxTok
           MaxStr,    \* at most this many string tokens in a list
           MaxRunes,  \* a string has 1..MaxRunes runes
+          RuneKinds, \* subset of {"p", "e", "b"}: how the runes of a string may be written
           MaxPeek,   \* push-backs between two receives
           DecMode, LineMode
 
@@ -65,7 +79,17 @@ VARIABLES toks,      \* the token list of this behaviour: records [k, n]
 vars == <<toks, lexerr, lpc, li, ppc, backlog, cur, held, npeek, lastLine, errLine,
           dec, curDec, result, fat>>
 
-Tok == {[k |-> "t", n |-> 0], [k |-> "nl", n |-> 0]} \cup {[k |-> "s", n |-> m] : m \in 1..MaxRunes}
+Tok == {[k |-> "t", n |-> 0, r |-> <<>>], [k |-> "nl", n |-> 0, r |-> <<>>]}
+       \cup UNION {{[k |-> "s", n |-> m, r |-> rr] : rr \in [1..m -> RuneKinds]} : m \in 1..MaxRunes}
+
+\* length in bytes of a string token (with its quotes), backslash bytes in it, capacity of its channel
+Count(tok, K) == Cardinality({i \in 1..tok.n : tok.r[i] \in K})
+Bytes(tok)    == 2 + tok.n + Count(tok, {"e", "b"})
+Backsl(tok)   == Count(tok, {"e"}) + 2 * Count(tok, {"b"})
+Cap(tok) == CASE DecMode = "buffered"   -> Bytes(tok)
+              [] DecMode = "exact"      -> tok.n
+              [] DecMode = "unbuffered" -> 0
+              [] DecMode = "tight"      -> Bytes(tok) - 2 - Backsl(tok)
 NStr(s) == Cardinality({i \in 1..Len(s) : s[i].k = "s"})
 TokLists == {s \in UNION {[1..len -> Tok] : len \in 0..MaxTok} : NStr(s) <= MaxStr}
 
@@ -81,7 +105,7 @@ LexItem(i) ==
   ELSE [k |-> "EOF", n |-> 0, line |-> LineOf(i), idx |-> i]
 ZeroItem == [k |-> "ZERO", n |-> 0, line |-> (IF LineMode = "tracked" THEN lastLine ELSE 0), idx |-> 0]
 
-NoDec == [pc |-> "none", n |-> 0, sent |-> 0, buf |-> 0]
+NoDec == [pc |-> "none", n |-> 0, sent |-> 0, buf |-> 0, cap |-> 0]
 
 Init ==
   /\ toks \in TokLists /\ lexerr \in BOOLEAN
@@ -161,7 +185,7 @@ ReturnOk ==
 \* readGlyphList, parser.go:1124: for r := range decodeString(item.val) -- go statement
 StartDecode ==
   /\ ppc = "decide" /\ held = None /\ cur.k = "s"
-  /\ dec' = [dec EXCEPT ![cur.idx] = [pc |-> "send", n |-> cur.n, sent |-> 0, buf |-> 0]]
+  /\ dec' = [dec EXCEPT ![cur.idx] = [pc |-> "send", n |-> cur.n, sent |-> 0, buf |-> 0, cap |-> Cap(toks[cur.idx])]]
   /\ curDec' = cur.idx /\ cur' = None /\ ppc' = "runes"
   /\ UNCHANGED <<toks, lexerr, lpc, li, backlog, held, npeek, lastLine, errLine, result, fat>>
 
@@ -173,11 +197,11 @@ AfterRune(j) ==
 RuneRecv ==
   /\ ppc = "runes"
   /\ LET d == curDec IN
-     \/ /\ DecMode = "unbuffered" /\ dec[d].pc = "send"          \* rendezvous with c <- r
+     \/ /\ dec[d].cap = 0 /\ dec[d].pc = "send"                  \* rendezvous with c <- r
         /\ dec' = [dec EXCEPT ![d].sent = @ + 1,
                               ![d].pc = IF dec[d].sent + 1 = dec[d].n THEN "close" ELSE "send"]
         /\ AfterRune(dec[d].sent + 1)
-     \/ /\ DecMode = "buffered" /\ dec[d].buf > 0
+     \/ /\ dec[d].buf > 0                                       \* from the buffer
         /\ dec' = [dec EXCEPT ![d].buf = @ - 1]
         /\ AfterRune(dec[d].sent - dec[d].buf + 1)
      \/ /\ dec[d].pc = "exit" /\ dec[d].buf = 0                  \* closed and empty
@@ -215,8 +239,8 @@ Drain ==
 
 ---------------------------------------------------------------------------
 (* decodeString goroutine, parser.go:1393-1418 *)
-DecSend(d) ==      \* c <- r on a channel with room: never blocks
-  /\ DecMode = "buffered" /\ dec[d].pc = "send"
+DecSend(d) ==      \* c <- r completes iff the channel has room
+  /\ dec[d].pc = "send" /\ dec[d].buf < dec[d].cap
   /\ dec' = [dec EXCEPT ![d].sent = @ + 1, ![d].buf = @ + 1,
                         ![d].pc = IF dec[d].sent + 1 = dec[d].n THEN "close" ELSE "send"]
 DecClose(d) ==
@@ -253,7 +277,10 @@ SinkGood == Quiescent => GoodOutcome(Obs)
 \* when Parse has returned, no helper is blocked on a channel nobody will serve
 NoOrphan == ppc = "exit" =>
               /\ lpc # "send"
-              /\ \A d \in 1..MaxTok : ~(dec[d].pc = "send" /\ DecMode = "unbuffered")
+              /\ \A d \in 1..MaxTok : dec[d].pc = "send" => dec[d].n - dec[d].sent <= dec[d].cap - dec[d].buf
+
+\* the sufficient condition the design relies on: room for every rune that is sent
+BufferSuffices == \A d \in 1..MaxTok : dec[d].pc # "none" => dec[d].cap >= dec[d].n
 
 \* the result, as soon as there is one
 ResultOK == ppc = "exit" => \/ result.kind = "ok"
@@ -265,6 +292,7 @@ TypeOK ==
   /\ Len(backlog) <= 2 * MaxPeek + 1 /\ npeek \in 0..MaxPeek
   /\ \A d \in 1..MaxTok : /\ dec[d].pc \in {"none", "send", "close", "exit"}
                           /\ dec[d].buf <= dec[d].sent /\ dec[d].sent <= dec[d].n
+                          /\ dec[d].buf <= dec[d].cap \/ dec[d].cap = 0
   /\ (ppc = "runes") = (curDec # 0)
   /\ result.kind \in {"none", "ok", "error"} /\ (result.kind = "none") = (ppc # "exit")
 
